@@ -46,6 +46,7 @@ var (
 func main() {
 	dur := flag.Duration("d", 5*time.Second, "duration")
 	seed := flag.Int64("seed", 1, "seed")
+	seqOnly := flag.Bool("seqonly", false, "only the concurrent table creation check (quick tier)")
 	flag.Parse()
 	db := statedb.New()
 	var tabs []statedb.RWTable[*Obj]
@@ -91,6 +92,10 @@ func main() {
 		if dup != "" {
 			fmt.Println("racer: DUPLICATE LOCK SEQUENCE:", dup)
 			os.Exit(67)
+		}
+		if *seqOnly {
+			fmt.Println("racer: seqonly ok:", len(seen), "tables created concurrently, all lock sequence numbers distinct")
+			return
 		}
 	}
 	db.Start()
